@@ -401,6 +401,12 @@ func RunParent(o RunOpts) Summary {
 					// the specification is the oracle of this property: a difference is a violation
 					kind = "violation"
 				}
+				if strings.Contains(ans, "(actions-changed ") {
+					// the driver refuses to answer because an action body of jsonpath.peg differs from the text the action
+					// model was written against: the MODEL is out of date (a broken tie), not an observed misbehaviour
+					kind = "mismatch"
+					sum.Dist["lean:"+q.Driver+":actions-changed"]++
+				}
 				if len(sum.Findings) < 200 {
 					what := fmt.Sprintf("%s: real=%s lean(%s)=%s", q.What, clip(q.Expect, 300), q.Driver, clip(ans, 300))
 					f := Finding{Kind: kind, What: what, Case: rec.I, Class: rec.Class}
